@@ -20,6 +20,7 @@ RULE = (
     "verdict must carry >= 1 message.  The row count of r comes from executing r and is cross-checked with the "
     "reference model.  Non-trivial = r is empty or some branch is statically/dynamically empty; distinct = program "
     "skeleton x verdict pair x emptiness."
+    "  The iteration and multi-engine modes contain user-defined operations (a RowFilter that is not empty-invariant, a Reordering, a marker relation); Diagnostics has to treat them by their declared flags. "
 )
 ASSUMPTIONS = [
     "the executor handed to Diagnostics is truthful by construction: it evaluates exactly the relation it is given "
